@@ -300,13 +300,19 @@ Proof.
 Qed.
 
 (* every script line decodes into tasks of the shape the theorems ask for *)
-Lemma decode_init_ok input : Forall (fun tk => Forall frag_step (t_steps tk)) (decode input) -> Forall init_ok (decode input).
+Lemma decode_init_ok input :
+  Forall (fun tk => Forall frag_step (t_steps tk) /\ Forall (fun x => x < TMAX) (expected tk)) (decode input) ->
+  Forall init_ok (decode input).
 Proof.
   unfold decode. destruct input as [|nm [|n r]]; try (intros _; constructor).
   set (mods := 1 + nm mod 2). assert (Hmods : mods <= 2) by (unfold mods; pose proof (N.mod_upper_bound nm 2); lia).
+  assert (Hmods0 : mods <> 0) by (unfold mods; generalize (nm mod 2); intros; lia).
   generalize (take_blobs (N.to_nat (N.min n (N.of_nat (length r)))) r). intros bl. induction bl as [|b bl IH]; cbn [map]; intros H; [constructor|].
-  inversion H as [|? ? Hb Hr]; subst. constructor; [|exact (IH Hr)].
-  unfold dec_task in *. destruct b as [|m0 [|s rest]]; cbn [t_steps t_cur t_iv t_log t_fin t_mod] in *;
-    (split; [exact Hb|]); repeat (split; [reflexivity|]); cbn [t_mod]; try lia.
-  assert (m0 mod mods < mods) by (apply N.mod_upper_bound; unfold mods; generalize (nm mod 2); intros; lia). lia.
+  inversion H as [|? ? [Hb Hfin] Hr]; subst. constructor; [|exact (IH Hr)].
+  assert (Hmod : t_mod (dec_task mods b) < 2).
+  { unfold dec_task. destruct b as [|m0 [|s rest]]; cbn [t_mod]; try lia. pose proof (N.mod_upper_bound m0 mods Hmods0). lia. }
+  assert (Hshape : t_cur (dec_task mods b) = None /\ t_iv (dec_task mods b) = None /\ t_log (dec_task mods b) = [] /\ t_fin (dec_task mods b) = false).
+  { unfold dec_task. destruct b as [|m0 [|s rest]]; repeat split. }
+  destruct Hshape as (S1 & S2 & S3 & S4).
+  split; [exact Hb|]. split; [exact S1|]. split; [exact S2|]. split; [exact S3|]. split; [exact S4|]. split; [exact Hmod|exact Hfin].
 Qed.
